@@ -55,6 +55,11 @@ pub fn rerun(line: &str) -> Option<String> {
             let o = crate::common::Opts { ecl: optn(e), mode: optn(m), version: optn(v), mask: optn(k) };
             Some(crate::pixops::pix_line(&unhex(hx), o, &crate::svgops::parse(ops)?, fw.parse().ok(), fh.parse().ok()))
         }
+        ["pushbits", v, sc] => {
+            let script: Option<Vec<(usize, usize)>> = if *sc == "-" { Some(vec![]) } else {
+                sc.split(';').map(|t| { let (b, l) = t.split_once(':')?; Some((usize::from_str_radix(b, 16).ok()?, l.parse().ok()?)) }).collect() };
+            Some(crate::gen::pushbits_line(v.parse().ok()?, &script?))
+        }
         ["classify", hx] => Some(crate::gen::classify_line(&unhex(hx))),
         _ => None,
     }
